@@ -126,6 +126,27 @@ func runC13(env *core.Env) {
 			add(fmt.Sprintf("reader||%s/%s/%s", wcmd.Name, r.name, r.sname), r.store, bound, r.req, wcmd.Mk(f, 1))
 		}
 	}
+	// the human (text) views as readers - they are built by other code paths than the JSON ones - against the writers
+	// that change what they show: claim, set state, new task, prune, compact, plan
+	for _, r := range []rd{
+		{"list--epic-E1-text", core.R("", "list", "--epic", f.E1).In(""), f.SA, "S_A"},
+		{"list-text", core.R("", "list", "--all").In(""), f.SA, "S_A"},
+		{"show-E1-text", core.R("", "show", f.E1).In(""), f.SA, "S_A"},
+	} {
+		for _, wr := range []struct {
+			name string
+			req  core.Req
+		}{
+			{"claim--epic-E1", claimReq("w1", "--epic", f.E1)},
+			{"set-T3{state}", core.R("", "--json", "set", f.T3).In(`{"state":"blocked"}`)},
+			{"new-task-in-E1", core.R("", "--json", "new", "task").In(jsonStr(map[string]string{"title": "late child", "epic": f.E1}))},
+			{"sequence-T1-T3", core.R("", "--json", "sequence", f.T1, f.T3)},
+			{"prune", core.R("", "--json", "prune", "--yes")},
+			{"compact", core.R("", "--json", "compact")},
+		} {
+			add(fmt.Sprintf("reader||%s/%s/%s", wr.name, r.name, r.sname), r.store, bound, r.req, wr.req)
+		}
+	}
 	// big log: the reader's scan is several read(2)s; writers that append, rewrite, or both
 	bigWriters := []c02Cmd{alpha[0], alpha[6], alpha[12], alpha[14], alpha[len(alpha)-1]}
 	for _, wcmd := range bigWriters {
@@ -144,5 +165,5 @@ func runC13(env *core.Env) {
 	add("reader||new-task||claim/list--all/S_A", f.SA, 2, core.R("", "--json", "list", "--all"), alpha[0].Mk(f, 1), claimReq("a2"))
 	add("reader||compact||new-task/list--all/S_A", f.SA, 2, core.R("", "--json", "list", "--all"), alpha[14].Mk(f, 1), alpha[0].Mk(f, 2))
 	exploreMany(env, st, "C13", jobs, 4)
-	finishSched(env, st, "a lock-free reader (list --json --all, show --json; thorough: also --epics/--ready) against every writer of the C02 alphabet plus a >4 KiB multi-event append, on a small and a 140 KB store (multi-read scans), plus reader against two writers; every interleaving of the reader's steps (path stat, open, tail probe, each read chunk) with the writer's steps up to the preemption bound; oracle: the reader exits 0 and its output equals the same command's output on one of the store versions that existed between its invocation and its exit (snapshots after every scheduler step)")
+	finishSched(env, st, "a lock-free reader (list --json --all, show --json; the text views list --epic, list --all, show <epic> against 6 writers that change what they show; thorough: also --epics/--ready) against every writer of the C02 alphabet plus a >4 KiB multi-event append, on a small and a 140 KB store (multi-read scans), plus reader against two writers; every interleaving of the reader's steps (path stat, open, tail probe, each read chunk) with the writer's steps up to the preemption bound; oracle: the reader exits 0 and its output equals the same command's output on one of the store versions that existed between its invocation and its exit (snapshots after every scheduler step)")
 }
